@@ -183,6 +183,12 @@ func (u *universe) populateRich(w *hWorld) {
 	mustOK(w.sys(u, u.U[1], "ESDTTransfer", u.Fung[1], big64(1000)), "whale issue")
 	mustOK(w.sys(u, u.U[2], "ESDTTransfer", u.Fung[1], new(big.Int).Lsh(big.NewInt(1), 70).Bytes()), "whale issue")
 	mustOK(w.tx(u.U[0], u.U[0], "ESDTNFTCreate", bigGas, u.NFTs[1], big64(77), []byte("whale"), be(250), []byte("hash-whale"), []byte("attr"), []byte("uri1")), "whale create")
+	// contracts with an owner and developer rewards (the library has no deploy: set directly, as the node would have)
+	for i, own := range [][]byte{u.U[0], u.U[2]} {
+		k := w.shards[w.shardOf(u.K[i])%uint32(w.nShards)].account(u.K[i])
+		k.owner = append([]byte(nil), own...)
+		k.devReward = big.NewInt(int64(500 + 111*i))
+	}
 	args := append([][]byte{u.HiTok}, u.AllRoles...)
 	mustOK(w.sys(u, u.U[2], "ESDTSetRole", args...), "setrole hi")
 	for n := uint64(1); n <= 254; n++ {
@@ -299,6 +305,25 @@ func richTour(u *universe, w *hWorld) []func() *worldOp {
 			sysAs(m, u.K[0], u.K[0], "MultiESDTNFTTransfer", be(1), u.Fung[0], []byte{0}, be(2)),
 		)
 	}
+	// account-level functions that SUCCEED (owners and rewards exist in rich worlds): claim (async with locked gas, then direct),
+	// change of owner, claim by the new owner, by the old one (refused), user name by the DNS address
+	l = append(l,
+		func() *worldOp {
+			cs := w.mkCall(w.shardOf(u.U[2]), "ClaimDeveloperRewards", u.U[2], u.K[1], nil, bigGas)
+			cs.CallType, cs.Locked = vmcommon.AsynchronousCall, 7
+			return &worldOp{Kind: opTx, Call: cs}
+		},
+		tx(u.U[0], u.K[0], "ClaimDeveloperRewards"),
+		tx(u.U[0], u.K[0], "ClaimDeveloperRewards"),
+		tx(u.U[0], u.K[0], "ChangeOwnerAddress", u.U[1]),
+		tx(u.U[0], u.K[0], "ClaimDeveloperRewards"),
+		tx(u.U[1], u.K[0], "ClaimDeveloperRewards"),
+		tx(u.U[1], u.K[0], "ChangeOwnerAddress", u.U[3]), // new owner on another shard
+		tx(u.U[3], u.K[0], "ClaimDeveloperRewards"),       // origin side only; the message is delivered
+		tx(u.DNS, u.U[1], "SetUserName", []byte("carol.elrond")),
+		tx(u.DNS, u.U[1], "SetUserName", []byte("carol2.elrond")),
+		tx(u.DNS, u.U[3], "SetUserName", []byte("dave.elrond")),
+	)
 	// a pause addressed to the non-canonical system-account address, a transfer of the token on that shard, the unpause
 	l = append(l,
 		sysAs(u.SC, u.U[0], u.SysVar, "ESDTPause", u.Fung[2]),
